@@ -135,16 +135,23 @@ def require_resolved(ctx, region):
 
 
 def core_of(ctx, api_name, marker):
-    """the function that implements an API entry: the API function itself, or (through thin wrappers) the function in
-    its region that directly calls `marker` (e.g. smiles_to_mol for the encoder, mol_to_smiles for the decoder)"""
+    """the function that implements an API entry: the API function itself, or -- through thin wrappers, i.e. functions
+    whose body is nothing but `return <call of one package function>` -- the function they forward to.  `marker` names
+    a function the implementation is known to reach (smiles_to_mol for the encoder, mol_to_smiles for the decoder);
+    it only confirms that the right region was found."""
     f = ctx.api(api_name)
-    direct = {g.name for s in ctx.cg.sites(f) for g in s.callees}
-    if marker in direct:
-        return f
-    for q in ctx.cg.region(f):
-        g = ctx.db.funcs[q]
-        if any(h.name == marker for s in ctx.cg.sites(g) for h in s.callees):
-            return g
+    seen = set()
+    while f.qual not in seen:
+        seen.add(f.qual)
+        body = [st for st in f.node.body if not (isinstance(st, ast.Expr) and isinstance(st.value, ast.Constant))]
+        if len(body) == 1 and isinstance(body[0], ast.Return) and isinstance(body[0].value, ast.Call):
+            site = [s for s in ctx.cg.sites(f) if s.node is body[0].value]
+            if site and len(site[0].callees) == 1 and site[0].callees[0].cls is None:
+                f = site[0].callees[0]
+                continue
+        break
+    if not any(ctx.db.funcs[q].name == marker for q in ctx.cg.region(f)):
+        raise AnalysisError("implementation of %s does not reach %s: anchor lost" % (api_name, marker))
     return f
 
 
